@@ -189,7 +189,7 @@ def extras(ctx, prop):
 
 
 ORACLE_PROPS = {"C01", "C03", "C04", "C05", "C17"}
-REF_PROPS = {"C06", "C07", "C08", "C10", "C14"}
+REF_PROPS = {"C06", "C07", "C08", "C10", "C14", "C17"}
 
 
 def applies(prop, c):
@@ -293,7 +293,15 @@ def single_call(ctx, prop, cases, variant="default", force=None, mode="run", mod
                 ctx.fail(c, "code %s is reported, but the three bytes after the version and its delimiter are %r: not "
                          "three ASCII digits with that value" % (I.f[1], bytes(d)), impl=iraw)
                 continue
-        if prop in REF_PROPS and R is not None and R.status != "NA":
+        if prop == "C17" and R is not None and R.status != "NA":
+            # whatever the call wrote into the array -- also when it ends in Partial or Err -- is a header of THIS buffer:
+            # the name / value pair the proved reference parser reads from the same line (trimmed the same way)
+            wi, wr = [x for x in I.array if x[0] == "W"], [x for x in R.array if x[0] == "W"]
+            if wi != wr:
+                ctx.fail(c, "the slots written by this call are not the headers the reference parser reads from this buffer: "
+                         "written %s, reference %s" % (" ".join(wi)[:120], " ".join(wr)[:120]), impl=iraw, ref=R.raw)
+                continue
+        if prop in REF_PROPS and prop != "C17" and R is not None and R.status != "NA":
             if proj(prop, kind, I, start) != proj(prop, kind, R, start):
                 ctx.fail(c, "implementation differs from the reference parser on the %s projection" % prop,
                          impl=iraw, ref=R.raw)
